@@ -130,6 +130,10 @@ def run(pid, tier):
         log("  [%.0fs]" % (time.time() - chk.t0))
         log("a/d: %d token-mutated documents (TLC, %d states) + %d byte-mutated fixtures through 9 text entry points" % (len(texts), res.distinct, len(aux)))
         states, trans = res.distinct, res.generated
+        # the listener automaton (spec/DslDoc.tla) has to explain what the real listener did on these documents too: contexts with
+        # missing parts after error recovery, early returns, and - were there one - the callback at which the Go code would panic
+        nd = chk_dsl.doc_validate(chk, binary, sc, [{"id": k, "text": v, "src": ["none", 0, 0]} for k, v in list(texts.items()) + list(aux.items()) if len(v) < 30000],
+                                  "token-mutated documents and byte-mutated fixtures")
 
         # ---- b. degenerate protobuf models
         deg = run_tlc("Degenerate", DEG_CFG % {"holes": 1 if tier == "quick" else 2}, sc, cache=True, timeout=3000)
